@@ -81,7 +81,7 @@ func c11Sweep(t failer, test string, in []byte) (n uint64, feasible bool, nbudge
 		// one option VALUE serves every parse it is given to (a server keeps its []grammar.Option)
 		opt := grammar.MaxExpressions(b)
 		ast, err, steps := grammar.ParseWithStats("", in, opt)
-		if feasible && nbudgets%2 == 0 { // (an option that lost its budget would make the parse of an infeasible input endless)
+		if feasible && N <= 1<<18 && nbudgets%2 == 0 { // (an option that lost its budget would make the parse of an infeasible input endless)
 			grammar.Parse("", []byte("a == 1 and b"), opt)
 			ast2, err2, steps2 := grammar.ParseWithStats("", in, opt)
 			if steps2 != steps || errText(err2) != errText(err) || !reflect.DeepEqual(ast2, ast) {
@@ -109,7 +109,7 @@ func c11Sweep(t failer, test string, in []byte) (n uint64, feasible bool, nbudge
 			if (ev2 == nil) != (ev == nil) || (cerr2 == nil) != (cerr == nil) || (cerr != nil && cerr2.Error() != cerr.Error()) {
 				violation(t, "C11", test, c, "WithMaxExpressions(1), WithMaxExpressions(%d) gives error %v, WithMaxExpressions(%d) alone %v on %s", b, cerr2, b, cerr, c.InputQ)
 			}
-			if feasible && b != 0 {
+			if feasible && N <= 1<<18 && b != 0 {
 				ev3, cerr3 := bexpr.CreateEvaluator(string(in), bexpr.WithMaxExpressions(b), bexpr.WithMaxExpressions(0))
 				if (cerr3 == nil) != (uErr == nil) || (cerr3 != nil && cerr3.Error() != uErr.Error()) || (ev3 == nil) != (uErr != nil) {
 					violation(t, "C11", test, c, "WithMaxExpressions(%d), WithMaxExpressions(0) must parse without limit on %s: error %v, the unlimited parse gives %v", b, c.InputQ, cerr3, uErr)
